@@ -592,6 +592,57 @@ func init() {
 				}
 			}
 		}
+		c.Phase("multisig-counts") // m-of-n with m and n on both sides of every limit a handler might have in mind (16, 20, 21, 32, 64; thorough: 255, 256, 1000), keys real / empty / junk, signatures empty / DER-shaped, both eras
+		{
+			n = 0
+			sigDER := gen.Push([]byte{0x30, 0x06, 0x02, 0x01, 0x01, 0x02, 0x01, 0x01, 0x41})
+			counts := []int{0, 1, 15, 16, 17, 19, 20, 21, 22, 31, 32, 33, 64}
+			if c.Thorough {
+				counts = append(counts, 255, 256, 1000)
+			}
+			for _, nk := range counts {
+				for _, nsSel := range []int{0, 1, 2, 3} { // 0 signatures, 1, all but one, as many as keys
+					ns := []int{0, 1, nk - 1, nk}[nsSel]
+					if ns < 0 || ns > nk {
+						continue
+					}
+					for variant := 0; variant < 6; variant++ {
+						n++
+						if !c.Case(n) {
+							continue
+						}
+						if variant%2 == 1 && ns*nk > 2000 && !c.Thorough {
+							continue // every DER-shaped signature is tried against every key: quadratic
+						}
+						u := []byte{0x00} // the dummy
+						for i := 0; i < ns; i++ {
+							if variant%2 == 0 {
+								u = append(u, 0x00)
+							} else {
+								u = append(u, sigDER...)
+							}
+						}
+						l := gen.PushNum(int64(ns))
+						for i := 0; i < nk; i++ {
+							switch variant % 3 {
+							case 0:
+								l = append(l, gen.Push(c07KeyG)...)
+							case 1:
+								l = append(l, 0x00)
+							default:
+								l = append(l, 0x02, byte(i), byte(i>>8))
+							}
+						}
+						l = append(append(l, gen.PushNum(int64(nk))...), 0xae)
+						for _, fl := range []uint32{0, uint32(scriptflag.UTXOAfterGenesis), uint32(scriptflag.UTXOAfterGenesis | scriptflag.EnableSighashForkID), uint32(scriptflag.VerifyNullFail | scriptflag.StrictMultiSig | scriptflag.VerifyStrictEncoding)} {
+							for _, mode := range []string{"tx", "tx+scripts", "scripts-only"} {
+								judge(c, &c07Input{Unlock: u, Lock: l, Flags: fl, Mode: mode, Dbg: []string{"none", "recording"}[n%2], Ctx: defaultCtx(), Src: "multisig-counts"})
+							}
+						}
+					}
+				}
+			}
+		}
 		c.Phase("wide-pushes-in-script-code") // keys and data pushed with OP_PUSHDATA1/2/4 in front of an executed signature check (the script code is rebuilt from the parsed form)
 		n = 0
 		{
